@@ -6,10 +6,18 @@ ap = argparse.ArgumentParser(); ap.add_argument("pid"); ap.add_argument("--text"
 a = ap.parse_args()
 pid = a.pid
 def grab(key, s):
-    m = re.search(key + r'\s*[:=]\s*"(.*?)"\s*(?:\n[a-z_.]+\s*[:=]|\n```|\Z)', s, re.S)
+    """text in double quotes following `key` (possibly wrapped in backticks / bullets), up to the next key or the end"""
+    m = re.search(key, s)
     if not m:
-        m = re.search(key + r'\s*[:=]\s*"(.*?)"', s, re.S)
-    return " ".join(m.group(1).split()) if m else None
+        return None
+    rest = s[m.end():]
+    nxt = re.search(r"\n[\s*`-]*(level_claimed\.text|level_note|technique|level_claimed\.category|property_id)\b", rest)
+    seg = rest[:nxt.start()] if nxt else rest
+    i, j = seg.find('"'), seg.rfind('"')
+    if i < 0 or j <= i:
+        seg2 = seg.split(":", 1)[-1].strip().strip("`").strip()
+        return " ".join(seg2.split()) or None
+    return " ".join(seg[i + 1:j].split())
 rep = ""
 try:
     rep = open("reports/%s.md" % pid).read()
